@@ -416,7 +416,7 @@ pub fn run(args: Args) -> ! {
         }
         rep.stats.merge(st);
     }
-    let run = run_tape("C06.build", &prop, 2500, args.tier.pick(100_000, 2_000_000), args.seed, workers());
+    let run = run_tape("C06.build", &prop, 2500, args.tier.pick(400_000, 4_000_000), args.seed, workers());
     finish_run(&mut rep, "build", run);
     for c in ["table.insert", "table.index_mut", "table.entry", "table.insert_formatted", "table.from_iter", "inline.insert", "inline.from_iter", "array.push", "array.from_iter", "doc.index_mut"] {
         rep.require_class(c);
